@@ -41,7 +41,7 @@ pub fn stub_sub_bytes(block: u128, sbox: &[u8; 256]) -> u128 {
 
 // ---------------------------------------------------------------------------------------------------------- leaves
 
-//@ harness name=kuz_soft_leaf_consts prop=C07,C20 tier=quick bits=16 est=60 desc="L: P[x] == pi(x), P_INV[x] == pi^-1(x) for all octets x; KEYGEN[i] == C_{i+1} = L(Vec128(i+1)) for symbolic i in 0..32"
+//@ harness name=kuz_soft_leaf_consts prop=C07,C20 tier=thorough bits=16 est=60 desc="L: P[x] == pi(x), P_INV[x] == pi^-1(x) for all octets x; KEYGEN[i] == C_{i+1} = L(Vec128(i+1)) for symbolic i in 0..32"
 verif_harness! {
     name: kuz_soft_leaf_consts,
     bytes: 2,
@@ -54,7 +54,7 @@ verif_harness! {
     }
 }
 
-//@ harness name=kuz_soft_leaf_sub_bytes prop=C07,C20 tier=quick bits=128 est=30 desc="L: sub_bytes(b, &P) == oracle S(b) and sub_bytes(b, &P_INV) == oracle S^-1(b) for all 2^128 b (u128 little-endian view)"
+//@ harness name=kuz_soft_leaf_sub_bytes prop=C07,C20 tier=thorough bits=128 est=30 desc="L: sub_bytes(b, &P) == oracle S(b) and sub_bytes(b, &P_INV) == oracle S^-1(b) for all 2^128 b (u128 little-endian view)"
 verif_harness! {
     name: kuz_soft_leaf_sub_bytes,
     bytes: 16,
@@ -71,7 +71,7 @@ fn view(t: &Table) -> &[[u128; 256]; 16] {
     unsafe { &*(t.0.as_ptr().cast()) }
 }
 
-//@ harness name=kuz_soft_leaf_rows prop=C07,C20 tier=quick bits=12 est=250 desc="L: every row of the fused tables in the [[u128; 256]; 16] view: ENC_TABLE[p][v] == L(pi(v) at octet p, 0 elsewhere), DEC_TABLE[p][v] == L^-1(pi^-1(v) at octet p, 0 elsewhere), p and v symbolic (all 2 x 4096 rows)"
+//@ harness name=kuz_soft_leaf_rows prop=C07,C20 tier=thorough bits=12 est=250 desc="L: every row of the fused tables in the [[u128; 256]; 16] view: ENC_TABLE[p][v] == L(pi(v) at octet p, 0 elsewhere), DEC_TABLE[p][v] == L^-1(pi^-1(v) at octet p, 0 elsewhere), p and v symbolic (all 2 x 4096 rows)"
 verif_harness! {
     name: kuz_soft_leaf_rows,
     bytes: 2,
@@ -88,7 +88,7 @@ verif_harness! {
     }
 }
 
-//@ harness name=kuz_soft_leaf_transform_pos prop=C07,C20 tier=thorough bits=9 est=2000 desc="L: transform on every word with one arbitrary octet v at position p (p = 0..15 in turn) and zero elsewhere, both tables: == oracle L(S(.)) resp. L^-1(S^-1(.)) -- table, row, lane and XOR accumulation of every loop iteration"
+//@ harness name=kuz_soft_leaf_transform_pos prop=C07,C20 tier=thorough bits=9 est=2000 cap=7200 desc="L: transform on every word with one arbitrary octet v at position p (p = 0..15 in turn) and zero elsewhere, both tables: == oracle L(S(.)) resp. L^-1(S^-1(.)) -- table, row, lane and XOR accumulation of every loop iteration"
 verif_harness! {
     name: kuz_soft_leaf_transform_pos,
     bytes: 2,
@@ -113,7 +113,7 @@ verif_harness! {
 
 // ---------------------------------------------------------------------------------------------------------- wiring: encryption
 
-//@ harness name=kuz_soft_keys prop=C07,C20 tier=quick bits=256 stub=1 est=120 desc="W: round keys of KuznyechikEnc::new(key) (big_soft expand_enc_keys) == oracle K1..K10 (Feistel key schedule with C_1..C_32), all 2^256 keys"
+//@ harness name=kuz_soft_keys prop=C07,C20 tier=thorough bits=256 stub=1 est=120 mem=30 cap=3600 desc="W: round keys of KuznyechikEnc::new(key) (big_soft expand_enc_keys) == oracle K1..K10 (Feistel key schedule with C_1..C_32), all 2^256 keys"
 verif_harness! {
     name: kuz_soft_keys,
     bytes: 32,
@@ -121,7 +121,7 @@ verif_harness! {
     stubs: [(crate::big_soft::backends::transform, stub_transform), (crate::big_soft::backends::sub_bytes, stub_sub_bytes)],
     prop: |inp| { k::w_keys(inp) }
 }
-//@ harness name=kuz_soft_enc_key prop=C07,C03,C12,C20 tier=quick bits=384 stub=1 est=200 desc="W: KuznyechikEnc::new(key).encrypt_block(b) == oracle E(key schedule(key), b), all keys, all blocks"
+//@ harness name=kuz_soft_enc_key prop=C07,C03,C12,C20 tier=thorough bits=384 stub=1 est=200 mem=30 cap=3600 desc="W: KuznyechikEnc::new(key).encrypt_block(b) == oracle E(key schedule(key), b), all keys, all blocks"
 verif_harness! {
     name: kuz_soft_enc_key,
     bytes: 48,
@@ -129,7 +129,7 @@ verif_harness! {
     stubs: [(crate::big_soft::backends::transform, stub_transform), (crate::big_soft::backends::sub_bytes, stub_sub_bytes)],
     prop: |inp| { k::w_enc_key(inp, 0) }
 }
-//@ harness name=kuz_soft_enc_key_both prop=C07,C03,C12,C20 tier=quick bits=384 stub=1 est=200 desc="W: Kuznyechik::new(key).encrypt_block(b) == oracle E(key schedule(key), b), all keys, all blocks"
+//@ harness name=kuz_soft_enc_key_both prop=C07,C03,C12,C20 tier=thorough bits=384 stub=1 est=200 mem=30 cap=3600 desc="W: Kuznyechik::new(key).encrypt_block(b) == oracle E(key schedule(key), b), all keys, all blocks"
 verif_harness! {
     name: kuz_soft_enc_key_both,
     bytes: 48,
@@ -137,7 +137,7 @@ verif_harness! {
     stubs: [(crate::big_soft::backends::transform, stub_transform), (crate::big_soft::backends::sub_bytes, stub_sub_bytes)],
     prop: |inp| { k::w_enc_key(inp, 1) }
 }
-//@ harness name=kuz_soft_enc_rk prop=C07,C03,C12,C20 tier=quick bits=1408 stub=1 est=60 desc="W: KuznyechikEnc over arbitrary round keys: encrypt_block == oracle E (9 LSX rounds + X), all round keys, all blocks"
+//@ harness name=kuz_soft_enc_rk prop=C07,C03,C12,C20 tier=thorough bits=1408 stub=1 est=60 desc="W: KuznyechikEnc over arbitrary round keys: encrypt_block == oracle E (9 LSX rounds + X), all round keys, all blocks"
 verif_harness! {
     name: kuz_soft_enc_rk,
     bytes: 160 + 16,
@@ -145,7 +145,7 @@ verif_harness! {
     stubs: [(crate::big_soft::backends::transform, stub_transform), (crate::big_soft::backends::sub_bytes, stub_sub_bytes)],
     prop: |inp| { k::w_enc_rk(inp, Route::Enc) }
 }
-//@ harness name=kuz_soft_enc_rk_clone prop=C12,C20 tier=quick bits=1408 stub=1 est=60 desc="W: clone of a KuznyechikEnc: encrypt_block == oracle E, all round keys, all blocks"
+//@ harness name=kuz_soft_enc_rk_clone prop=C12,C20 tier=thorough bits=1408 stub=1 est=60 desc="W: clone of a KuznyechikEnc: encrypt_block == oracle E, all round keys, all blocks"
 verif_harness! {
     name: kuz_soft_enc_rk_clone,
     bytes: 160 + 16,
@@ -153,7 +153,7 @@ verif_harness! {
     stubs: [(crate::big_soft::backends::transform, stub_transform), (crate::big_soft::backends::sub_bytes, stub_sub_bytes)],
     prop: |inp| { k::w_enc_rk(inp, Route::EncClone) }
 }
-//@ harness name=kuz_soft_enc_rk_val prop=C12,C03,C20 tier=quick bits=1408 stub=1 est=60 desc="W: Kuznyechik::from(enc) (by value): encrypt_block == oracle E, all round keys, all blocks"
+//@ harness name=kuz_soft_enc_rk_val prop=C12,C03,C20 tier=thorough bits=1408 stub=1 est=60 desc="W: Kuznyechik::from(enc) (by value): encrypt_block == oracle E, all round keys, all blocks"
 verif_harness! {
     name: kuz_soft_enc_rk_val,
     bytes: 160 + 16,
@@ -161,7 +161,7 @@ verif_harness! {
     stubs: [(crate::big_soft::backends::transform, stub_transform), (crate::big_soft::backends::sub_bytes, stub_sub_bytes)],
     prop: |inp| { k::w_enc_rk(inp, Route::Val) }
 }
-//@ harness name=kuz_soft_enc_rk_ref prop=C12,C03,C20 tier=quick bits=1408 stub=1 est=60 desc="W: Kuznyechik::from(&enc) (by reference): encrypt_block == oracle E, all round keys, all blocks"
+//@ harness name=kuz_soft_enc_rk_ref prop=C12,C03,C20 tier=thorough bits=1408 stub=1 est=60 desc="W: Kuznyechik::from(&enc) (by reference): encrypt_block == oracle E, all round keys, all blocks"
 verif_harness! {
     name: kuz_soft_enc_rk_ref,
     bytes: 160 + 16,
@@ -169,7 +169,7 @@ verif_harness! {
     stubs: [(crate::big_soft::backends::transform, stub_transform), (crate::big_soft::backends::sub_bytes, stub_sub_bytes)],
     prop: |inp| { k::w_enc_rk(inp, Route::Ref) }
 }
-//@ harness name=kuz_soft_enc_rk_valclone prop=C12,C20 tier=quick bits=1408 stub=1 est=60 desc="W: Kuznyechik::from(enc).clone(): encrypt_block == oracle E, all round keys, all blocks"
+//@ harness name=kuz_soft_enc_rk_valclone prop=C12,C20 tier=thorough bits=1408 stub=1 est=60 desc="W: Kuznyechik::from(enc).clone(): encrypt_block == oracle E, all round keys, all blocks"
 verif_harness! {
     name: kuz_soft_enc_rk_valclone,
     bytes: 160 + 16,
@@ -177,7 +177,7 @@ verif_harness! {
     stubs: [(crate::big_soft::backends::transform, stub_transform), (crate::big_soft::backends::sub_bytes, stub_sub_bytes)],
     prop: |inp| { k::w_enc_rk(inp, Route::ValClone) }
 }
-//@ harness name=kuz_soft_enc_rk_refclone prop=C12,C20 tier=quick bits=1408 stub=1 est=60 desc="W: Kuznyechik::from(&enc).clone(): encrypt_block == oracle E, all round keys, all blocks"
+//@ harness name=kuz_soft_enc_rk_refclone prop=C12,C20 tier=thorough bits=1408 stub=1 est=60 desc="W: Kuznyechik::from(&enc).clone(): encrypt_block == oracle E, all round keys, all blocks"
 verif_harness! {
     name: kuz_soft_enc_rk_refclone,
     bytes: 160 + 16,
@@ -188,7 +188,7 @@ verif_harness! {
 
 // ---------------------------------------------------------------------------------------------------------- wiring: decryption
 
-//@ harness name=kuz_soft_dec_rk_val prop=C07,C03,C12,C20 tier=quick bits=1408 stub=1 est=200 desc="W: KuznyechikDec::from(enc) (by value, real inv_enc_keys) over arbitrary encryption round keys: decrypt_block == oracle D = X[K1] S^-1 L^-1 X[K2] ... S^-1 L^-1 X[K10], all round keys, all blocks (linearity instances of L^-1 assumed, lemma kuz_lin_linv)"
+//@ harness name=kuz_soft_dec_rk_val prop=C07,C03,C12,C20 tier=thorough bits=1408 stub=1 est=200 desc="W: KuznyechikDec::from(enc) (by value, real inv_enc_keys) over arbitrary encryption round keys: decrypt_block == oracle D = X[K1] S^-1 L^-1 X[K2] ... S^-1 L^-1 X[K10], all round keys, all blocks (linearity instances of L^-1 assumed, lemma kuz_lin_linv)"
 verif_harness! {
     name: kuz_soft_dec_rk_val,
     bytes: 160 + 16,
@@ -196,7 +196,7 @@ verif_harness! {
     stubs: [(crate::big_soft::backends::transform, stub_transform), (crate::big_soft::backends::sub_bytes, stub_sub_bytes)],
     prop: |inp| { k::w_dec_rk(inp, Route::Val, false, true) }
 }
-//@ harness name=kuz_soft_dec_rk_ref prop=C07,C03,C12,C20 tier=quick bits=1408 stub=1 est=200 desc="W: KuznyechikDec::from(&enc) (by reference): decrypt_block == oracle D, all round keys, all blocks"
+//@ harness name=kuz_soft_dec_rk_ref prop=C07,C03,C12,C20 tier=thorough bits=1408 stub=1 est=200 desc="W: KuznyechikDec::from(&enc) (by reference): decrypt_block == oracle D, all round keys, all blocks"
 verif_harness! {
     name: kuz_soft_dec_rk_ref,
     bytes: 160 + 16,
@@ -204,7 +204,7 @@ verif_harness! {
     stubs: [(crate::big_soft::backends::transform, stub_transform), (crate::big_soft::backends::sub_bytes, stub_sub_bytes)],
     prop: |inp| { k::w_dec_rk(inp, Route::Ref, false, true) }
 }
-//@ harness name=kuz_soft_dec_rk_valclone prop=C12,C20 tier=quick bits=1408 stub=1 est=200 desc="W: KuznyechikDec::from(enc).clone(): decrypt_block == oracle D, all round keys, all blocks"
+//@ harness name=kuz_soft_dec_rk_valclone prop=C12,C20 tier=thorough bits=1408 stub=1 est=200 desc="W: KuznyechikDec::from(enc).clone(): decrypt_block == oracle D, all round keys, all blocks"
 verif_harness! {
     name: kuz_soft_dec_rk_valclone,
     bytes: 160 + 16,
@@ -212,7 +212,7 @@ verif_harness! {
     stubs: [(crate::big_soft::backends::transform, stub_transform), (crate::big_soft::backends::sub_bytes, stub_sub_bytes)],
     prop: |inp| { k::w_dec_rk(inp, Route::ValClone, false, true) }
 }
-//@ harness name=kuz_soft_dec_rk_refclone prop=C12,C20 tier=quick bits=1408 stub=1 est=200 desc="W: KuznyechikDec::from(&enc).clone(): decrypt_block == oracle D, all round keys, all blocks"
+//@ harness name=kuz_soft_dec_rk_refclone prop=C12,C20 tier=thorough bits=1408 stub=1 est=200 desc="W: KuznyechikDec::from(&enc).clone(): decrypt_block == oracle D, all round keys, all blocks"
 verif_harness! {
     name: kuz_soft_dec_rk_refclone,
     bytes: 160 + 16,
@@ -220,7 +220,7 @@ verif_harness! {
     stubs: [(crate::big_soft::backends::transform, stub_transform), (crate::big_soft::backends::sub_bytes, stub_sub_bytes)],
     prop: |inp| { k::w_dec_rk(inp, Route::RefClone, false, true) }
 }
-//@ harness name=kuz_soft_both_dec_rk_val prop=C07,C03,C12,C20 tier=quick bits=1408 stub=1 est=200 desc="W: Kuznyechik::from(enc) (by value): decrypt_block == oracle D, all round keys, all blocks"
+//@ harness name=kuz_soft_both_dec_rk_val prop=C07,C03,C12,C20 tier=thorough bits=1408 stub=1 est=200 desc="W: Kuznyechik::from(enc) (by value): decrypt_block == oracle D, all round keys, all blocks"
 verif_harness! {
     name: kuz_soft_both_dec_rk_val,
     bytes: 160 + 16,
@@ -228,7 +228,7 @@ verif_harness! {
     stubs: [(crate::big_soft::backends::transform, stub_transform), (crate::big_soft::backends::sub_bytes, stub_sub_bytes)],
     prop: |inp| { k::w_dec_rk(inp, Route::Val, true, true) }
 }
-//@ harness name=kuz_soft_both_dec_rk_ref prop=C07,C03,C12,C20 tier=quick bits=1408 stub=1 est=200 desc="W: Kuznyechik::from(&enc) (by reference): decrypt_block == oracle D, all round keys, all blocks"
+//@ harness name=kuz_soft_both_dec_rk_ref prop=C07,C03,C12,C20 tier=thorough bits=1408 stub=1 est=200 desc="W: Kuznyechik::from(&enc) (by reference): decrypt_block == oracle D, all round keys, all blocks"
 verif_harness! {
     name: kuz_soft_both_dec_rk_ref,
     bytes: 160 + 16,
@@ -236,7 +236,7 @@ verif_harness! {
     stubs: [(crate::big_soft::backends::transform, stub_transform), (crate::big_soft::backends::sub_bytes, stub_sub_bytes)],
     prop: |inp| { k::w_dec_rk(inp, Route::Ref, true, true) }
 }
-//@ harness name=kuz_soft_both_dec_rk_valclone prop=C12,C20 tier=quick bits=1408 stub=1 est=200 desc="W: Kuznyechik::from(enc).clone(): decrypt_block == oracle D, all round keys, all blocks"
+//@ harness name=kuz_soft_both_dec_rk_valclone prop=C12,C20 tier=thorough bits=1408 stub=1 est=200 desc="W: Kuznyechik::from(enc).clone(): decrypt_block == oracle D, all round keys, all blocks"
 verif_harness! {
     name: kuz_soft_both_dec_rk_valclone,
     bytes: 160 + 16,
@@ -244,7 +244,7 @@ verif_harness! {
     stubs: [(crate::big_soft::backends::transform, stub_transform), (crate::big_soft::backends::sub_bytes, stub_sub_bytes)],
     prop: |inp| { k::w_dec_rk(inp, Route::ValClone, true, true) }
 }
-//@ harness name=kuz_soft_both_dec_rk_refclone prop=C12,C20 tier=quick bits=1408 stub=1 est=200 desc="W: Kuznyechik::from(&enc).clone(): decrypt_block == oracle D, all round keys, all blocks"
+//@ harness name=kuz_soft_both_dec_rk_refclone prop=C12,C20 tier=thorough bits=1408 stub=1 est=200 desc="W: Kuznyechik::from(&enc).clone(): decrypt_block == oracle D, all round keys, all blocks"
 verif_harness! {
     name: kuz_soft_both_dec_rk_refclone,
     bytes: 160 + 16,
@@ -252,7 +252,7 @@ verif_harness! {
     stubs: [(crate::big_soft::backends::transform, stub_transform), (crate::big_soft::backends::sub_bytes, stub_sub_bytes)],
     prop: |inp| { k::w_dec_rk(inp, Route::RefClone, true, true) }
 }
-//@ harness name=kuz_soft_dec_key prop=C07,C03,C12,C20 tier=quick bits=384 stub=1 est=300 desc="W: KuznyechikDec::new(key).decrypt_block(b) == oracle D(key schedule(key), b), all keys, all blocks"
+//@ harness name=kuz_soft_dec_key prop=C07,C03,C12,C20 tier=thorough bits=384 stub=1 est=300 mem=30 cap=3600 desc="W: KuznyechikDec::new(key).decrypt_block(b) == oracle D(key schedule(key), b), all keys, all blocks"
 verif_harness! {
     name: kuz_soft_dec_key,
     bytes: 48,
@@ -260,7 +260,7 @@ verif_harness! {
     stubs: [(crate::big_soft::backends::transform, stub_transform), (crate::big_soft::backends::sub_bytes, stub_sub_bytes)],
     prop: |inp| { k::w_dec_key(inp, 0, true) }
 }
-//@ harness name=kuz_soft_dec_key_both prop=C07,C03,C12,C20 tier=quick bits=384 stub=1 est=300 desc="W: Kuznyechik::new(key).decrypt_block(b) == oracle D(key schedule(key), b), all keys, all blocks"
+//@ harness name=kuz_soft_dec_key_both prop=C07,C03,C12,C20 tier=thorough bits=384 stub=1 est=300 mem=30 cap=3600 desc="W: Kuznyechik::new(key).decrypt_block(b) == oracle D(key schedule(key), b), all keys, all blocks"
 verif_harness! {
     name: kuz_soft_dec_key_both,
     bytes: 48,
@@ -271,7 +271,7 @@ verif_harness! {
 
 // ---------------------------------------------------------------------------------------------------------- round trips
 
-//@ harness name=kuz_soft_rt_enc_dec prop=C01,C20 tier=quick bits=1408 stub=1 est=200 desc="W: KuznyechikEnc encrypts, KuznyechikDec::from(&enc) decrypts: result == b, arbitrary round keys, all blocks (S, L uninterpreted inverse pairs)"
+//@ harness name=kuz_soft_rt_enc_dec prop=C01,C20 tier=thorough bits=1408 stub=1 est=200 desc="W: KuznyechikEnc encrypts, KuznyechikDec::from(&enc) decrypts: result == b, arbitrary round keys, all blocks (S, L uninterpreted inverse pairs)"
 verif_harness! {
     name: kuz_soft_rt_enc_dec,
     bytes: 160 + 16,
@@ -279,7 +279,7 @@ verif_harness! {
     stubs: [(crate::big_soft::backends::transform, stub_transform), (crate::big_soft::backends::sub_bytes, stub_sub_bytes)],
     prop: |inp| { k::w_roundtrip_rk(inp, 0, true) }
 }
-//@ harness name=kuz_soft_rt_ed prop=C01,C20 tier=quick bits=1408 stub=1 est=200 desc="W: Kuznyechik::from(&enc): dec(enc(b)) == b, arbitrary round keys, all blocks"
+//@ harness name=kuz_soft_rt_ed prop=C01,C20 tier=thorough bits=1408 stub=1 est=200 desc="W: Kuznyechik::from(&enc): dec(enc(b)) == b, arbitrary round keys, all blocks"
 verif_harness! {
     name: kuz_soft_rt_ed,
     bytes: 160 + 16,
@@ -287,7 +287,7 @@ verif_harness! {
     stubs: [(crate::big_soft::backends::transform, stub_transform), (crate::big_soft::backends::sub_bytes, stub_sub_bytes)],
     prop: |inp| { k::w_roundtrip_rk(inp, 1, true) }
 }
-//@ harness name=kuz_soft_rt_de prop=C01,C20 tier=quick bits=1408 stub=1 est=200 desc="W: Kuznyechik::from(&enc): enc(dec(b)) == b, arbitrary round keys, all blocks"
+//@ harness name=kuz_soft_rt_de prop=C01,C20 tier=thorough bits=1408 stub=1 est=200 desc="W: Kuznyechik::from(&enc): enc(dec(b)) == b, arbitrary round keys, all blocks"
 verif_harness! {
     name: kuz_soft_rt_de,
     bytes: 160 + 16,
